@@ -768,10 +768,10 @@ func v12Config(r *verifh.Rand) (string, []string) {
 		}
 	}
 	for k := r.Intn(3); k > 0; k-- {
+		// zoned servers are rejected by the parser since /repo f20e750; the value-level streams
+		// still compare zoned and zone-less addresses
 		zone := ""
-		if r.Chance(30) {
-			zone = "%eth3"
-		}
+		_ = r.Chance(30)
 		fmt.Fprintf(&sb, "  [[interfaces.rdnss]]\n  servers = [\"2001:db8::%d\", \"fe80::1:%d%s\"]\n", 50+k, k, zone)
 		if r.Chance(70) {
 			fmt.Fprintf(&sb, "  lifetime = \"%s\"\n", secs(1, 100000))
